@@ -526,17 +526,6 @@ func execPogsAir(kind string, seed uint64) string {
 				note("!grp")
 			}
 		}
-		// round trip
-		var back airZ
-		if err := pogs.Extract(&back, verifxZTypeID, root.Struct); err != nil {
-			return "extract-error:" + err.Error()
-		}
-		want := *z
-		normZ(&want)
-		normZ(&back)
-		if !reflect.DeepEqual(&want, &back) {
-			note("!round-trip")
-		}
 		// fields outside the active member are neither written …
 		dirty := *z
 		if z.Which != 8 {
@@ -577,6 +566,17 @@ func execPogsAir(kind string, seed uint64) string {
 					note("!inactive-scalar-read")
 				}
 			}
+		}
+		// round trip (last: normalising the nil / empty equivalences touches the value's shared children)
+		var back airZ
+		if err := pogs.Extract(&back, verifxZTypeID, root.Struct); err != nil {
+			return "extract-error:" + err.Error()
+		}
+		want := *z
+		normZ(&want)
+		normZ(&back)
+		if !reflect.DeepEqual(&want, &back) {
+			note("!round-trip")
 		}
 	case "defaults":
 		d := airDefaults{Float: float32(r.Intn(100)) / 8, Int: int32(r.U64()), Uint: uint32(r.U64())}
